@@ -262,8 +262,9 @@ func c02ErrCallbacks(r *RNG, add func([]C02Op), thorough bool) {
 		for _, w := range []int{0, 2} {
 			c02EnumFrom([]C02Op{reg(w, a, 0, 2, e)}, 2+deep, a == 9 && e == 1, nil, nil, add)
 		}
+		lean := !thorough && !(a == 9 && e == 1)
 		// on a column, for its cells
-		for c := 1; c <= 2; c++ {
+		for c := 1; c <= 2 && !lean; c++ {
 			o := reg(3, a, 0, 2, e)
 			o.C = c
 			c02EnumFrom([]C02Op{{O: "AddHeaders", Xs: []int{1, 2}}, o}, 2, false, nil, nil, add)
@@ -271,6 +272,9 @@ func c02ErrCallbacks(r *RNG, add func([]C02Op), thorough bool) {
 		// on a row: for itself, for its cells, "for rows"; the row detached,
 		// attached, attached with cells
 		for _, w := range []int{1, 4, 5} {
+			if lean && w != 4 {
+				continue
+			}
 			for _, pre := range [][]C02Op{
 				{{O: "NewRow", R: 1}},
 				{{O: "AppendNewRow", R: 1}},
@@ -336,29 +340,38 @@ func c02R6(r *RNG, addSpec func(C02Spec), thorough bool) {
 	add := func(h []C02Op) { addSpec(C02Spec{Ops: h}) }
 	c02ErrCallbacks(r, add, thorough)
 	singles := c02ViaSingles()
-	// every way of getting one wrapper x every short history
 	for _, v := range singles {
 		v := v
-		n := 2
+		addVia := func(h []C02Op) { addSpec(C02Spec{Ops: h, Via: v}) }
+		isAuto := strings.HasPrefix(v.Nest[0], "auto:")
+		same := v.Build == v.Observe
 		if thorough {
-			n = 3
-		}
-		c02Enum(n, true, func(h []C02Op) { addSpec(C02Spec{Ops: h, Via: v}) })
-	}
-	// header width x row width x entry point: on the core table, and for
-	// every kind of wrapper (made by New / by auto.New)
-	c02WidthShapes(3, 4, add)
-	for _, v := range singles {
-		v := v
-		if !thorough && !(v.New || (v.Build == 1 && v.Observe == 1 && !strings.HasPrefix(v.Nest[0], "auto:"))) {
+			// every way of getting one wrapper x every short history; header
+			// width x row width x entry point
+			c02Enum(3, true, addVia)
+			c02WidthShapes(3, 4, addVia)
 			continue
 		}
-		mh, mw := 2, 3
-		if thorough {
-			mh, mw = 3, 4
+		// quick tier: all histories of two calls for the wrapper of each
+		// sub-package (by Wrap and by New) over the full alphabet and for
+		// auto.New over the reduced one; the width shapes for all of these
+		// and, smaller, where the calls are made on one level and the table
+		// is looked at through another
+		switch {
+		case same && !isAuto:
+			c02Enum(2, true, addVia)
+		case same && v.New:
+			c02Enum(2, false, addVia)
 		}
-		c02WidthShapes(mh, mw, func(h []C02Op) { addSpec(C02Spec{Ops: h, Via: v}) })
+		switch {
+		case same && !isAuto && v.New:
+			c02WidthShapes(2, 3, addVia)
+		case same && (v.New || !isAuto), !same && !isAuto:
+			c02WidthShapes(1, 2, addVia)
+		}
 	}
+	// the same shapes on the core table
+	c02WidthShapes(3, 4, add)
 	// random histories through random stacks of wrappers (also with
 	// callbacks, also over two tables)
 	n := 150
